@@ -185,6 +185,11 @@ func TestVerifScenario_C05_postfile_sizes_unchecked(t *testing.T) {
 func TestVerifScenario_C05_reward_block_division_by_zero(t *testing.T) {
 	k, _, ctx := sSetup(t)
 	a, p := sAddr(1), sAddr(2)
+	// the state below is reachable only if a file of size 0 can be posted by a valid transaction
+	if err := (&types.MsgPostFile{Creator: a.String(), Merkle: []byte("merkle"), FileSize: 0, MaxProofs: 3, ProofType: 0, Note: "{}"}).ValidateBasic(); err != nil {
+		fmt.Println("SCENARIO-OK a file of size 0 cannot be posted (ValidateBasic):", err)
+		return
+	}
 	f := types.UnifiedFile{Merkle: []byte("merkle"), Owner: a.String(), Start: 1, Expires: 0, FileSize: 0, ProofInterval: 100, MaxProofs: 3, Note: "{}"}
 	late := ctx.WithBlockHeight(k.GetParams(ctx).CheckWindow * 3)
 	f.AddProver(late.WithBlockHeight(late.BlockHeight()-1), k, p.String()) // proven one block before the reward block
